@@ -12,6 +12,7 @@ import (
 	"cmp"
 	"io"
 	"sort"
+	"time"
 )
 
 // VerifVbintFill writes v as a variable byte integer into buf at
@@ -64,6 +65,18 @@ var (
 	// statement points.
 	VerifInstrumented bool
 )
+
+// VerifNowHook, when set, is the clock of instrumented builds: the
+// /verif instrumenter routes every time.Now, time.Since and time.Until
+// of the non-test source through verifNow in its build overlay.
+var VerifNowHook func() time.Time
+
+func verifNow() time.Time {
+	if VerifNowHook != nil {
+		return VerifNowHook()
+	}
+	return time.Now()
+}
 
 func verifStep(id int) {
 	VerifSteps++
